@@ -9,6 +9,14 @@ CLAIMED = {
         text="Lean theorems (any reactant list, any ordered field with lawful pow): createMassAction det/stoch/vol/svol = documented closed forms, falling-factorial facts, Hill family forms, plain/safe interface; model = executable Lean transcription of the propensity classes, run bit-for-bit against the rebuilt implementation at the bare object, plain and safe interfaces (exhaustive over ordered reactant lists of length 0..4 on 3 species).",
         note=NOTE_COMMON + "pow accuracy / overflow outside the proof; Hill values compared within 64 ulps because Cython's ** is complex std::pow.",
         technique="Lean 4 proof + bit-exact model/implementation correspondence", ref="DESIGN.md §4 C01"),
+    "C03": dict(
+        text="Lean theorems: update dictionary = products - reactants with multiplicity (any lists, any species order), immediate and delayed matrix entries, cancellation, species index never holds a name twice, compressed derivative row = dense (S+S_d) x rate, initialisation fails iff a parameter is unset; executable model run against Model.py_get_update_array / delay array / species order / py_calculate_deterministic_derivative (bitwise for mass action) over random reaction lists and all 24 declaration orders.",
+        note=NOTE_COMMON + "parameter indexing and general-rate term trees are read off the real object in this job (their construction is covered by C02/C08).",
+        technique="Lean 4 proof + model/implementation correspondence", ref="DESIGN.md §4 C03"),
+    "C20": dict(
+        text="Lean theorems (any ordered floor field, histories of any length): insertion slot = clamp(round-half-up offset) (nearest / earliest / last), add touches exactly one cell, advance shifts and vacates, and queue_exactly_once: delivered + pending = added per (absolute slot, reaction) by induction over histories; partition parts sum to the original for every random stream. Executable model compared with the real ArrayDelayQueue on exhaustive short histories and random histories up to length 200 (Float and Rat), including twister-exact binomial partitions.",
+        note=NOTE_COMMON + "aliasing (copy independence) cannot be expressed in the pure model and is covered by the correspondence histories only; C-cast truncation is the class law LawfulTrunc.",
+        technique="Lean 4 proof (invariant over histories) + exhaustive/random correspondence", ref="DESIGN.md §4 C20"),
 }
 PENDING = {}
 def main():
